@@ -87,9 +87,10 @@ BlkItem(b)   == [bh |-> b.bh, bn |-> b.bn, slot |-> b.slot]
 AllRanges    == 0..1
 InRange(b, r) == b.bn \div RangeLen = r
 Rg(q) == {q[i] : i \in DOMAIN q}
-(* leaves of block range r in tree order: legacy = the transactions in chain order; v2 = the  *)
-(* BTreeSet order of CardanoBlockTransactionMkTreeNode (blocks first, then transactions, by   *)
-(* block number ...) which is the chain order here                                            *)
+(* leaves of block range r in tree order: legacy = the repository's order (block number, then *)
+(* transaction hash); v2 = the BTreeSet order of CardanoBlockTransactionMkTreeNode (blocks      *)
+(* first, then transactions, by block number, slot, block hash, transaction hash). Both are the *)
+(* listing order of the chains built in MC_Proofs (hashes of a block listed alphabetically)     *)
 RECURSIVE BlkLeaves(_, _, _)
 BlkLeaves(w, r, i) ==
     IF i > Len(w) THEN <<>>
